@@ -33,7 +33,8 @@ PROPS = {
                  "Buffers handed to Marshal are overwritten and reused by the harness afterwards; results the caller keeps are compared with a copy taken when they were returned; every operation kind is first called on a fresh object (baseline) "
                  "and once on the object under test before the snapshot is taken. "
                  "Images may be signed by another tool first and may end in a non-Authenticode entry; bystander objects (a twin, a different image) must be unaffected; one interleaved run in three starts on a cold object; "
-                 "a client that blocks in a primitive the scheduler does not own hands the processor over (deadlock is a violation), goroutines started by the code under test are not scheduled. "
+                 "a client that blocks in a primitive the scheduler does not own hands the processor over (deadlock is a violation), goroutines started by the code under test are not scheduled; "
+                 "one call in four overwrites the memory it was handed back (results are the caller's); one sequential image run in four has a single failing read (the call it hits is not judged, all others are); sequential runs on signed updates run under a moving simulated clock. "
                  "Non-trivial: mode 1 an operation repeated at least twice; mode 2 at least two clients and one context switch; mode 3 at least two clients. Distinct = distinct event-log hash; "
                  "distinct_schedules = distinct effective context-switch lists."),
         "exhaustive": lambda tier: False,
@@ -53,7 +54,8 @@ PROPS = {
                        "refcms, pegen. Content of inter-entry padding and the position of nothing else is constrained. Verify for a non-signer may return false with or without an error."),
         "rule": ("Per run: image = pegen layout (11 of 12) or fixture; instant; key subset incl. the issuer+serial collision pair; ops Sign(k) / Reparse / ReparseViaOpen / Verify(k) / Hash / Signatures. "
                  "One run in seven starts from an image another tool signed (refCMSForeign: extra authenticated attributes, foreign name encodings, padding counted in dwLength or non-zero filler); one in five keeps a second parsed image alive beside the history and re-checks it after every step; "
-                 "one layout in five has a boundary of the hashed ranges on a round offset (512 B - 64 KiB). Non-trivial: at least one Sign followed by a reparse. Distinct = distinct event-log hash; model states = distinct (signer sequence, length mod 8)."),
+                 "one layout in five has a boundary of the hashed ranges on a round offset (512 B - 64 KiB); the image is parsed from the simulated medium, a bytes.Reader (fresh or already read from) or a SectionReader inside a larger file; "
+                 "Sign may go through a signing device with seeded latency, and SignBoth signs this image and the second one from two clients under the scheduler (the device is the yield point). Non-trivial: at least one Sign followed by a reparse. Distinct = distinct event-log hash; model states = distinct (signer sequence, length mod 8)."),
         "exhaustive": lambda tier: False,
         "components": {"real": REAL, "stub": "synctest fake clock, simreader as image medium, fixed key pool"},
         "assumptions": COMMON_ASSUMPTIONS + ["RSA PKCS#1 v1.5 signing in Go is deterministic, so produced bytes are a function of the seed"],
@@ -77,7 +79,9 @@ PROPS = {
                  "certificate lists, raw bytes 0-1000), pool key (RSA 2048/3072/4096; self-signed and CA-issued certificates of 19 kinds incl. a 70 KB one), API (SignEFIVariable or WriteSignedUpdate through the "
                  "simulated filesystem), 1-4 updates per run that stay alive to the end, seeded signer latency (simulated time passes inside Sign), optionally 2-3 interleaved signing goroutines; "
                  "two signer certificates with validity windows inside the simulated time span and the clock 1 s - 14 h inside an edge (a signingTime attribute must then lie inside the window: time-strict verifiers); "
-                 "the caller changes its payload object after the call; payloads incl. generic well-formed databases (0-5 lists, empty lists anywhere). Every run is non-trivial "
+                 "the caller changes its payload object after the call; payloads incl. generic well-formed databases (0-5 lists, empty lists anywhere), library *SignatureDatabase objects and a type whose Bytes() is not its wire form; "
+                 "vendor variables with well-known names; the signer may refuse 1-8 requests (also with a temporary error) inside a sequence; instants within an hour of a clock change of the zone; keys of 2047/2049 bits, certificates issued with SHA-384/512 and with foreign name encodings; "
+                 "one run in eight first verifies a foreign SHA-384/512 SignedData in the same process. Every run is non-trivial "
                  "(at least one signed update produced and judged); distinct = distinct event-log hash. A second engine runs the same generator with the zone taken from the TZ environment variable of the worker."),
         "exhaustive": lambda tier: False,
         "components": {"real": REAL, "stub": "synctest fake clock, time.Local / TZ zone configuration, simfs recorder (WriteSignedUpdate path)"},
@@ -97,6 +101,7 @@ PROPS = {
         "rule": ("Per run a swarm-selected subset of types/owners/operation kinds; start from empty, a repository fixture stream or a generated stream; 1-40 operations "
                  "(Append, AppendSignature, Remove, RemoveSignature, BytesExists, SigDataExists, Exists, AppendList, AppendDatabase with the source kept alive, Restart through a caller buffer that is reused or into the live database, "
                  "Swap = the history continues on a database that was merged into this one; one run in fifteen is a long grow-and-shrink history of one list of 10-40 entries; "
+                 "a third of the runs use owner GUIDs that differ in one field only; restarts also through a reader that delivers 1-13 bytes per call; an encoding kept from an earlier step must stay what it was; both list-level append entry points; "
                  "lists built through the list-level API incl. removes, list restart and lists with a SignatureHeader). "
                  "Non-trivial: at least two successful mutations and a non-empty view at some step. Distinct = distinct event-log hash; model states = distinct structural snapshots of the database."),
         "exhaustive": lambda tier: False,
@@ -115,6 +120,7 @@ PROPS = {
         "rule": ("Per run: 1-3 of PK/KEK/db/dbx, optionally an ordinary predefined variable and a generated one; values from a small universe (hash databases of 0-9 entries, "
                  "certificate databases, multi-list databases, databases ending in a header-only list, generic well-formed databases of 0-5 lists with empty lists anywhere, raw bytes of 0-400 bytes), optionally a second variable with the same name under another GUID; ops WriteVar / WriteSignedUpdate / "
                  "WriteBlob (the same Marshallable object reused) / GetVar / GetVarInto (one destination object reused) / GetVarWithAttributes / typed Get* / Reopen; stores pre-populated with extra attribute bits; "
+                 "typed reads compare the decoded structure, not only the bytes; plain writes of values that only begin like an authentication descriptor; variable definitions rebuilt by the caller; a second store alive in the process; "
                  "in one run of five the byte store underneath fails at 1-4 seeded calls (a write that reports the failure leaves the variable indeterminate until the next acknowledged write, a failing read is not judged, every acknowledged write is read back exactly). Non-trivial: a read of a "
                  "variable that has been written at least twice. Distinct = distinct event-log hash."),
         "exhaustive": lambda tier: False,
@@ -159,6 +165,7 @@ PROPS = {
                  "counting seams to record the dependency-call sequence; then one case per (position k, fault kind[, byte count]) for "
                  "EVERY position and every kind legal for that call (err; partial_err/short_nil with 1, 2, len-1 bytes; err_full = all bytes taken and an error; early_eof for file reads), plus "
                  "the same failures with the identities an operating system gives them (*PathError around ENOENT / EINTR; io.ErrUnexpectedEOF and EIO for the image reader; temporary errors of the signer), "
+                 "after every failed case the same operation on a fresh object over healthy dependencies must give the fault-free result (a failure stays local), "
                  "seeded multi-fault and persistent (device gone) sequences. A case is non-trivial when an injected fault actually fired "
                  "inside the operation; distinct = distinct (instance, fired fault list)."),
         "exhaustive": lambda tier: True,
